@@ -84,4 +84,20 @@ theorem serveSoap_no_body (F : Facts11) (hS : F.soapBody = .directChild) (soapNs
     simp only [hS, Xml.children, hf, Bool.not_true, Bool.false_eq_true, if_false]
   unfold serveSoap; rw [hm]
 
+
+/-! ## one protocol instance, one application -/
+
+theorem setApps_bound (F : Facts11) (hP : F.protoSingleApp = true) (a : Nat) (as : List Nat) (st : Option Nat)
+    (h : setApps F (some a) as = some st) : st = some a ∧ ∀ x ∈ as, x = a := by
+  induction as with
+  | nil => simp [setApps] at h; exact ⟨h.symm, by simp⟩
+  | cons x xs ih =>
+    simp only [setApps, setApp, hP, if_true] at h
+    by_cases hx : a = x
+    · subst hx
+      simp only [if_true] at h
+      have ⟨h1, h2⟩ := ih h
+      exact ⟨h1, by intro y hy; rcases List.mem_cons.mp hy with rfl | hy; rfl; exact h2 y hy⟩
+    · simp [hx] at h
+
 end SpyneModel.Dispatch
